@@ -5,6 +5,9 @@
    pl <strict> <relaxed> <ignore_unknown> <cur dict> <text> <codec>
    int <text>
    sc <directive> <scope>
+   docsc <directive> <scope>      legal according to the documented placement table
+   docscn                         names of the documented placement table
+   docimm / docbeh / imm          documented immediate decorators / behaviour directives / dumped immediate set
    vm <options dict> <header dict> <queried names ;-separated> <forest tokens ...>
       forest := [ tree* ]   tree := ( <kind F|C|X|W|P> <sets dict (ordered, may repeat names)> forest )
 *)
@@ -89,6 +92,11 @@ let handle = function
   | ["lower"; t] -> enc_str (lower (str_of t))
   | ["strip"; t] -> enc_str (strip (str_of t))
   | ["space"; c] -> string_of_bool (py_isspace (n_of_string c))
+  | ["docimm"] -> String.concat ";" (List.map enc_str doc_immediate)
+  | ["docbeh"] -> String.concat ";" (List.map enc_str doc_behaviour)
+  | ["docscn"] -> String.concat ";" (List.map (fun (k, _) -> enc_str k) doc_scopes)
+  | ["imm"] -> String.concat ";" (List.map enc_str g_immediate)
+  | ["docsc"; d; scope] -> string_of_bool (doc_scope_ok (str_of d) (str_of scope))
   | ["sc"; d; scope] -> string_of_bool (g_scope_ok (str_of d) (str_of scope))
   | "vm" :: options :: header :: q :: toks ->
       let (forest, rest) = p_forest toks in
